@@ -1671,6 +1671,8 @@ class SpaceUpdater(SharedSpaceOperations):
         for n in nx.descendants(self._graph, node):
             self._graph.get_mro(n)
 
+        self._check_member_conflict(node)
+
         if container is None:
             container = parent._named_spaces
 
@@ -1730,21 +1732,7 @@ class SpaceUpdater(SharedSpaceOperations):
         for desc in itertools.chain(
                 {node},
                 nx.descendants(self._graph, node)):
-
-            mro = self._graph.get_mro(desc)
-
-            # Check name conflict between spaces, cells, refs
-            members = {}
-            for attr in ["spaces", "cells", "refs"]:
-                namechain = []
-                for sname in mro:
-                    space = self._graph.to_space(sname)
-                    namechain.append(set(getattr(space, attr).keys()))
-                members[attr] = set().union(*namechain)
-
-            conflict = set().intersection(*[n for n in members.values()])
-            if conflict:
-                raise NameError("name conflict: %s" % conflict)
+            self._check_member_conflict(desc)
 
         self._instructions.append(
             Instruction(self._update_derived_space, (node,)))
@@ -1754,6 +1742,33 @@ class SpaceUpdater(SharedSpaceOperations):
 
         self._instructions.execute()
         self._update_manager()
+
+    def _check_member_conflict(self, node):
+        """Check name conflict between child spaces, cells and refs
+
+        Raise an error if in the space of ``node``,
+        under the inheritance held in the working graph,
+        a name would denote two kinds of members. Cells and references are
+        inherited from the base spaces, child spaces are not.
+        """
+        names = {"cells": set(), "own_refs": set()}
+        for sname in self._graph.get_mro(node):
+            if "space" not in self._graph.nodes[sname]:
+                continue    # The space being created has no members yet
+            space = self._graph.to_space(sname)
+            for attr in names:
+                names[attr].update(getattr(space, attr).keys())
+
+        if "space" in self._graph.nodes[node]:
+            spaces = set(self._graph.to_space(node).named_spaces.keys())
+        else:
+            spaces = set()
+
+        conflict = ((names["cells"] & names["own_refs"])
+                    | (names["cells"] & spaces)
+                    | (names["own_refs"] & spaces))
+        if conflict:
+            raise NameError("name conflict: %s" % sorted(conflict))
 
     def remove_bases(self, space, bases):
 
